@@ -653,13 +653,19 @@ class Circuit(Function):
                     gates_for_block.add(new_label)
             else:
                 if right_connect:
-                    self._gates[old_to_new_names[cur_gate.label]] = gate.Gate(
-                        label=old_to_new_names[cur_gate.label],
-                        gate_type=cur_gate.gate_type,
-                        operands=tuple(
-                            old_to_new_names[operand] for operand in cur_gate.operands
-                        ),
+                    connected_label = old_to_new_names[cur_gate.label]
+                    connected_operands = tuple(
+                        old_to_new_names[operand] for operand in cur_gate.operands
                     )
+                    for operand in connected_operands:
+                        self._add_user(operand, connected_label)
+                    self._gates[connected_label] = gate.Gate(
+                        label=connected_label,
+                        gate_type=cur_gate.gate_type,
+                        operands=connected_operands,
+                    )
+                    if cur_gate.gate_type != gate.INPUT:
+                        gates_for_block.add(connected_label)
 
         self.set_outputs(
             [output for output in self._outputs if output not in this_connectors]
